@@ -161,7 +161,10 @@ def run(rep: common.Report, tier: str, seed: int):
         dd = dict(items)
         with pgm.quiet():
             obj = cls.from_dict(dd)
-        used = {k: v for k, v in dd.items() if k in sig and getattr(obj, k) == v}
+            ref = cls(**{k: v for k, v in dd.items() if k in sig})     # built from exactly the constructor parameters
+        # (an attribute may legitimately differ from the given value: __post_init__ rescales e.g. pitch_fa)
+        same = set(vars(obj)) == set(vars(ref)) and all(same_value(vars(obj)[k], vars(ref)[k]) for k in vars(ref))
+        used = {k: v for k, v in dd.items() if k in sig} if same else {'!!': 0}
         unexpected = [k for k in extra if k not in sig and hasattr(obj, k)]
         vi = ValIntern()
         add('from_dict', {'cls': cls.__name__, 'dict': dd},
@@ -218,6 +221,20 @@ def run(rep: common.Report, tier: str, seed: int):
         'samples': [cases[0], cases[len(cases) // 2], cases[-1]], 'traces_validated_against_impl': len(cases),
         'disagreements_checked': len(fails), 'distribution': hist,
     })
+
+
+def same_value(a, b):
+    try:
+        import numpy as np
+        if isinstance(a, np.ndarray) or isinstance(b, np.ndarray):
+            return bool(np.array_equal(np.asarray(a), np.asarray(b), equal_nan=True))
+        if hasattr(a, 'wkb') and hasattr(b, 'wkb'):
+            return a.wkb == b.wkb
+        if a == b:
+            return True
+        return repr(a) == repr(b)
+    except Exception:
+        return repr(a) == repr(b)
 
 
 def replay(data):
